@@ -443,6 +443,7 @@ def parseLStmt (s : String) : Option LStmt :=
 def parseLitTy (s : String) : Option Ty :=
   match s with
   | "int_" => some (.anyInt false) | "float_" => some .anyFloat | "bool" => some .bool | "str" => some .string
+  | "unit" => some .unit
   | s => parseScalarTy s
 
 def parseFieldsSpec (s : String) : Option (List (Nat × Ty)) :=
